@@ -53,6 +53,9 @@ def cases_for(rng, q):
     # a ReadAll that got a part of its bytes and waits again must still be the object the registry keeps alive
     cases.append(("case", ["dial 1 ok", "areadall 1", "feed 1 3", "poll", "feed 1 2", "poll", "timer 2 ok", "close 2", "poll", "feed 1 3", "poll", "close 1", "census"]))
     cases.append(("case", ["dial 1 ok", "dial 2 ok", "areadall 1", "areadall 2", "feed 2 5", "poll", "feed 1 1", "poll", "poll", "close 1", "feed 2 3", "poll", "close 2", "census"]))
+    # an accept loop (every completed accept re-arms): the listener must be the registered owner of its descriptor while it waits
+    cases.append(("case", ["listen 1 ok", "aaccept 1", "poll", "connect 1", "poll", "poll", "connect 1", "connect 1", "poll", "poll", "timer 2 ok", "close 2",
+                           "poll", "close 1", "census"]))
     # random histories
     for _ in range(20 if q else 400):
         ops = []
